@@ -108,6 +108,11 @@ func (fm *ForwardMessage) DecodeMsg(dc *msgp.Reader) error {
 		return msgp.WrapError(err, "Array Header")
 	}
 
+	// only the element counts the protocol allows: anything else would be read short or past its end
+	if sz != 2 && sz != 3 {
+		return msgp.ArrayError{Wanted: 3, Got: sz}
+	}
+
 	// a reused receiver must not keep the options of an earlier message
 	fm.Options = nil
 
@@ -174,6 +179,11 @@ func (fm *ForwardMessage) UnmarshalMsg(bits []byte) ([]byte, error) {
 
 	if sz, bits, err = msgp.ReadArrayHeaderBytes(bits); err != nil {
 		return bits, msgp.WrapError(err, "Array Header")
+	}
+
+	// only the element counts the protocol allows: anything else would be read short or past its end
+	if sz != 2 && sz != 3 {
+		return bits, msgp.ArrayError{Wanted: 3, Got: sz}
 	}
 
 	// a reused receiver must not keep the options of an earlier message
